@@ -21,32 +21,27 @@ impl ParamStatus {
 }
 
 pub fn fix_fn_param_idents(sig: &mut syn::Signature) {
-    if fix_ident_conflicts(sig).is_ok() {
-        return;
+    if !simplify_pat_idents(sig).is_ok() && !lift_inner_pat_idents(sig).is_ok() {
+        autogenerate_for_non_idents(sig);
     }
 
-    if lift_inner_pat_idents(sig).is_ok() {
-        return;
-    }
-
-    autogenerate_for_non_idents(sig);
+    make_idents_unique(sig);
 }
 
-fn fix_ident_conflicts(sig: &mut syn::Signature) -> ParamStatus {
+/// Reduce identifier patterns to the plain identifier: binding modes (`mut`, `ref`) and
+/// subpatterns (`x @ ..`) are not allowed in a trait method without body,
+/// and are of no use in a method that only forwards its arguments.
+fn simplify_pat_idents(sig: &mut syn::Signature) -> ParamStatus {
     let mut status = ParamStatus::Ok;
-    let fn_ident_string = sig.ident.to_string();
 
     for fn_arg in sig.inputs.iter_mut() {
         let arg_status = match fn_arg {
             syn::FnArg::Receiver(_) => ParamStatus::Ok,
             syn::FnArg::Typed(pat_type) => match pat_type.pat.as_mut() {
                 syn::Pat::Ident(param_ident) => {
-                    if param_ident.ident == fn_ident_string {
-                        param_ident.ident = syn::Ident::new(
-                            &format!("{}_", param_ident.ident),
-                            param_ident.ident.span(),
-                        );
-                    }
+                    param_ident.by_ref = None;
+                    param_ident.mutability = None;
+                    param_ident.subpat = None;
 
                     ParamStatus::Ok
                 }
@@ -58,6 +53,27 @@ fn fix_ident_conflicts(sig: &mut syn::Signature) -> ParamStatus {
     }
 
     status
+}
+
+/// Rename (by appending `_`) every parameter that has the same name as the function itself,
+/// which the generated method has to call, or as a parameter before it.
+fn make_idents_unique(sig: &mut syn::Signature) {
+    let mut taken_idents: HashSet<String> = HashSet::new();
+    taken_idents.insert(sig.ident.to_string());
+
+    for fn_arg in sig.inputs.iter_mut() {
+        if let syn::FnArg::Typed(pat_type) = fn_arg {
+            if let syn::Pat::Ident(param_ident) = pat_type.pat.as_mut() {
+                let mut ident = param_ident.ident.clone();
+                while taken_idents.contains(&ident.to_string()) {
+                    // note: `format_ident` turns a raw identifier into a plain one
+                    ident = quote::format_ident!("{}_", ident);
+                }
+                taken_idents.insert(ident.to_string());
+                param_ident.ident = ident;
+            }
+        }
+    }
 }
 
 fn lift_inner_pat_idents(sig: &mut syn::Signature) -> ParamStatus {
@@ -129,6 +145,9 @@ fn autogenerate_for_non_idents(sig: &mut syn::Signature) {
             },
         })
         .collect();
+
+    // a generated name must not shadow the function that the method has to call either
+    taken_idents.insert(sig.ident.to_string());
 
     fn generate_ident(index: usize, attempts: usize, taken_idents: &mut HashSet<String>) -> String {
         let ident = format!(
